@@ -117,12 +117,15 @@ def run(tier, seed):
         samples = []
         seen = [0] * n
         for path in glob.glob(outp + ".*"):
-            with open(path) as f:
-                for line in f:
+            if True:
+                for line in vlib.complete_lines(path):
                     parts = line.rstrip("\n").split(" ", 3)
                     if len(parts) < 4:
                         continue
-                    c, enc, variant, d = int(parts[0]), parts[1], parts[2], parts[3]
+                    try:
+                        c, enc, variant, d = int(parts[0]), parts[1], parts[2], parts[3]
+                    except ValueError:
+                        continue  # torn record of a worker that died (reported by absorb)
                     text = docs[c]
                     exp = []
                     expected_dump(jsondocs.denote(text), "utf32" if enc == "utf32w" else enc, exp)
